@@ -12,7 +12,10 @@ class AllFunctions:
         self.names = tuple(names)
         self.sp = sp = Space(names)
         self.order = tuple(order)
-        self.bdd = bdd = _b.BDD({v: i for i, v in enumerate(order)})
+        lv = {v: i for i, v in enumerate(order)}
+        # insertion order of `vars` != level order (hostile default)
+        keys = sorted(lv, key=lambda v: (hash_str(v, order) % 7, v))
+        self.bdd = bdd = _b.BDD({v: lv[v] for v in keys})
         if tables is None:
             tables = range(sp.full + 1)
         self.tables = list(tables)
@@ -45,6 +48,11 @@ class AllFunctions:
         for r in self.R.values():
             self.bdd.decref(r)
         self.R = dict()
+
+
+def hash_str(v, order):
+    from vf.common import h64
+    return h64(v, tuple(order))
 
 
 def subsets(names):
